@@ -125,7 +125,7 @@ Qed.
    them) although its command will start again.  With maxActiveRuns = 1: two commands execute at once, and the
    dependency's command starts again after the dependent's. *)
 Definition rep_cof : stepdef :=
-  {| deps := []; cof := true; cos := false; rlimit := 0; pre := true; sfail := false; repeat := true |}.
+  {| deps := []; cof := true; cos := false; rlimit := 0; pre := true; sfail := false; repeat := true; cfails := 0 |}.
 Definition repeat_cof_cfg : cfg := mkcfgx [rep_cof; sd [0] 0] 1 false true 0 false allh.
 Definition repeat_cof_pre : list label :=
   launch 0 ++ [WExecEnd 0 false; WAfter 0 false; LCommit 1; LLaunch 1; WTest 1].
